@@ -20,6 +20,8 @@ type cacheModel struct {
 	loose  map[string]bool
 	mayAll bool
 	taint  map[string]bool
+	// taints that may or may not have been consumed (crash / interrupt during the build)
+	taintUnc map[string]bool
 	// every listing a target's command has produced so far (to tell a stale restore from
 	// an inexact one)
 	produced map[string]map[string]*semState
@@ -30,7 +32,7 @@ type cacheModel struct {
 }
 
 func newCacheModel() *cacheModel {
-	return &cacheModel{strict: map[string]bool{}, loose: map[string]bool{}, taint: map[string]bool{}, produced: map[string]map[string]*semState{}, unc: map[string]bool{}, depUnc: map[string]bool{}}
+	return &cacheModel{strict: map[string]bool{}, loose: map[string]bool{}, taint: map[string]bool{}, taintUnc: map[string]bool{}, produced: map[string]map[string]*semState{}, unc: map[string]bool{}, depUnc: map[string]bool{}}
 }
 
 // semState is the semantic state of a target at the time one of its executions produced a
@@ -173,7 +175,7 @@ func init() {
 			if v, ok := params["max_targets"]; ok {
 				mt, _ = strconv.Atoi(v)
 			}
-			return &wbuild{g: genCfg{MaxTargets: mt, Features: map[string]bool{}}, mode: params["mode"]}
+			return &wbuild{g: genCfg{MaxTargets: mt, Features: map[string]bool{}}, mode: params["mode"], focus: params["focus"]}
 		}
 	}
 }
@@ -216,6 +218,9 @@ func (w *wbuild) Drive(s *simrt.Sched, out *RunResult) {
 	w.syncWorkspace(m, u)
 	cm := newCacheModel()
 
+	if w.mode == "faults" {
+		w.setupFaults(m)
+	}
 	base := InvOpts{Workers: 1 + c.Choose(4, "workers"), LoadOutputs: "all", Hash: pick(c, "hash", "xxh3", "sha256"), EnableCache: true, Platform: "linux/amd64"}
 	if w.mode == "minimal" {
 		base.LoadOutputs = "minimal"
@@ -242,16 +247,73 @@ func (w *wbuild) Drive(s *simrt.Sched, out *RunResult) {
 				}
 			}
 		}
-		res := w.invoke(m, req, opts, nil)
+		var arm func(p *simrt.Proc)
+		note2 := ""
+		if fs := w.fs; fs != nil {
+			fs.fired, fs.crashed, fs.sigStep, fs.sigObserved = 0, false, 0, 0
+			span := fs.lastOps
+			if span < 20 {
+				span = 150
+			}
+			if fs.crash && simos.Plan.Budget > 0 && chance(c, 1, 3, "arm-crash") {
+				simos.Plan.Budget--
+				k := 1 + c.Choose(span+span/5, "crash-op")
+				arm = func(p *simrt.Proc) { simos.PD(p).CrashAtOp = k }
+				note2 = fmt.Sprintf("crash armed at fs-op %d", k)
+			} else if fs.signal && simos.Plan.Budget > 0 && chance(c, 1, 3, "arm-signal") {
+				simos.Plan.Budget--
+				stepSpan := fs.lastSteps
+				if stepSpan < 50 {
+					stepSpan = 600
+				}
+				at := s.Steps() + 1 + c.Choose(stepSpan+stepSpan/5, "signal-step")
+				note2 = fmt.Sprintf("SIGINT armed at step %d", at)
+				var target *simrt.Proc
+				arm = func(p *simrt.Proc) { target = p }
+				s.OnStep = func(step int) {
+					if step >= at && fs.sigStep == 0 && target != nil && !target.Dead() {
+						fs.sigStep = step
+						fs.sigSimMS = s.SimElapsed().Milliseconds()
+						simrt.Fault("signal")
+						if !simos.Deliver(target, os.Interrupt) {
+							s.Crash(target) // no handler installed yet: default action
+						}
+					}
+				}
+				s.OnTaskEnd = func(t *simrt.Task) {
+					if fs.sigStep != 0 && fs.sigObserved == 0 && strings.Contains(t.Origin, "console/cmd_setup.go") {
+						fs.sigObserved = s.Steps()
+					}
+				}
+			}
+		}
+		res := w.invoke(m, req, opts, arm)
+		s.OnStep, s.OnTaskEnd = nil, nil
 		builds++
+		if fs := w.fs; fs != nil {
+			if res.Cause == "crash" {
+				fs.crashed = true
+			}
+			if !fs.crashed && fs.sigStep == 0 {
+				fs.lastSteps = res.Steps
+				fs.lastOps = res.Ops
+			}
+		}
+		if note2 != "" {
+			note = strings.TrimSpace(note + " " + note2)
+		}
 		h := HistOp{Op: req.Kind, Req: &req, Opts: &opts, Note: note, Exit: &res.ExitCode}
 		for _, e := range res.Events {
 			if e.Kind == "cmd" {
 				h.Execd = append(h.Execd, e.Label)
 			}
 		}
+		if res.Cause != "return" && res.Cause != "exit" {
+			h.Note = strings.TrimSpace(h.Note + " cause=" + res.Cause)
+		}
 		cs.History = append(cs.History, h)
 		w.checkBuild(res, req, opts, cm, ext0)
+		w.auditCache(m, fmt.Sprintf("after invocation %d", res.N))
 		shapeParts = append(shapeParts, fmt.Sprint(req.Patterns, len(h.Execd), res.ExitCode))
 	}
 	for i := 0; i < nops && len(s.Violations) == 0; i++ {
@@ -262,7 +324,17 @@ func (w *wbuild) Drive(s *simrt.Sched, out *RunResult) {
 		if w.g.Features["taint"] {
 			kinds = append(kinds, "taint")
 		}
+		if w.fs != nil && w.fs.damage {
+			kinds = append(kinds, "damage")
+		}
 		switch kinds[c.Choose(len(kinds), "op")] {
+		case "damage":
+			note := w.damageCache(m)
+			for k := range cm.strict {
+				cm.unc[k] = true
+			}
+			cs.History = append(cs.History, HistOp{Op: "cache-damage", Note: note})
+			shapeParts = append(shapeParts, "damage")
 		case "edit":
 			snapshots = append(snapshots, w.U.Clone())
 			nu, ed := genEdit(c, w.U, w.g, snapshots)
@@ -290,9 +362,15 @@ func (w *wbuild) Drive(s *simrt.Sched, out *RunResult) {
 			labels := w.U.Labels()
 			l := labels[c.Choose(len(labels), "taint-target")]
 			req := BuildReq{Kind: "taint", Patterns: []string{l}}
+			if w.fs != nil {
+				w.fs.fired = 0
+			}
 			res := w.invoke(m, req, base, nil)
 			cs.History = append(cs.History, HistOp{Op: "taint", Req: &req, Exit: &res.ExitCode})
-			if res.ExitCode != 0 {
+			if w.fs != nil && w.fs.fired > 0 {
+				// a fault hit the taint command: the taint may or may not have been recorded
+				cm.taintUnc[l] = true
+			} else if res.ExitCode != 0 {
 				s.Report(simrt.Violation{Prop: "C13", Class: "taint-failed", Signature: "exit", Detail: "grog taint " + l + " exited " + fmt.Sprint(res.ExitCode) + "\n" + tailStr(res.Log, 10)})
 			}
 			cm.taint[l] = true
@@ -408,6 +486,34 @@ func (w *wbuild) checkBuild(res *InvResult, req BuildReq, opts InvOpts, cm *cach
 	}
 	ev := NewEval(u, opts.Platform)
 	sel := u.Select(req, opts.Platform)
+	faulted, crashed, signalled := false, false, false
+	if w.fs != nil {
+		faulted, crashed, signalled = w.fs.fired > 0, w.fs.crashed, w.fs.sigStep != 0
+	}
+	if crashed {
+		// killed: whatever it executed may or may not have reached the cache, taints may or
+		// may not have been consumed; the follow-up builds decide (C07: next build satisfies C01)
+		for _, e := range res.Events {
+			if e.Kind == "cmd" && u.Specs[e.Label] != nil {
+				cm.unc[ev.Strict(e.Label)] = true
+				if cm.taint[e.Label] {
+					cm.taintUnc[e.Label] = true
+				}
+			}
+		}
+		return
+	}
+	if signalled {
+		fs := w.fs
+		for _, e := range res.Events {
+			if e.Kind == "cmd" && fs.sigObserved != 0 && e.Start > fs.sigObserved {
+				report("C18", "target-started-after-interrupt", "start-after-handler", fmt.Sprintf("%s started at step %d although the interrupt was delivered at step %d and the signal handler had finished at step %d", e.Label, e.Start, fs.sigStep, fs.sigObserved))
+			}
+		}
+		if dt := res.EndSimMS - fs.sigSimMS; dt > 10000 {
+			report("C18", "slow-exit-after-interrupt", "exit-time", fmt.Sprintf("the process ended %d ms (simulated) after SIGINT", dt))
+		}
+	}
 	executed := map[string]int{}
 	wrongDeps := map[string]string{}
 	diskListingOf := map[string]map[string]string{}
@@ -513,18 +619,18 @@ func (w *wbuild) checkBuild(res *InvResult, req BuildReq, opts InvOpts, cm *cach
 			reason = "cache-disabled"
 		case sp.HasTag("no-cache"):
 			reason = "no-cache"
-		case cm.taint[l]:
+		case cm.taint[l] && !cm.taintUnc[l] && !faulted:
 			reason = "tainted"
 		case checkFails:
 			reason = "output-check-failing"
-		case cm.unc[kS] || cm.depUnc[kS] || depClobbered(sp) || w.dirInWay[l]:
+		case cm.unc[kS] || cm.depUnc[kS] || depClobbered(sp) || w.dirInWay[l] || cm.taintUnc[l] || faulted:
 		case !cm.strict[kS]:
 			reason = "no-result-for-current-state"
 		}
 		verdict := "may"
 		if reason != "" {
 			verdict = "must"
-		} else if !cm.unc[kS] && !cm.depUnc[kS] && !depClobbered(sp) && !w.dirInWay[l] && cm.loose[kL] {
+		} else if !cm.unc[kS] && !cm.depUnc[kS] && !depClobbered(sp) && !w.dirInWay[l] && !cm.taintUnc[l] && !faulted && cm.loose[kL] {
 			verdict = "mustnot"
 		}
 		// model outcome of an execution
@@ -589,7 +695,12 @@ func (w *wbuild) checkBuild(res *InvResult, req BuildReq, opts InvOpts, cm *cach
 					// output-less target now has a usable result
 					cm.unc[kS] = true
 				}
-				delete(cm.taint, l)
+				if faulted && cm.taint[l] {
+					cm.taintUnc[l] = true // the taint removal may have been hit by the fault
+				} else {
+					delete(cm.taint, l)
+					delete(cm.taintUnc, l)
+				}
 				if cm.produced[l] == nil {
 					cm.produced[l] = map[string]*semState{}
 				}
@@ -598,6 +709,20 @@ func (w *wbuild) checkBuild(res *InvResult, req BuildReq, opts InvOpts, cm *cach
 		} else {
 			status[l] = "ok" // restored
 		}
+	}
+	interrupted := (faulted || signalled) && res.ExitCode != 0
+	if interrupted {
+		// a fault or an interrupt failed the invocation: whatever ran may or may not have been
+		// recorded; nothing was required to run to completion
+		for _, l := range order {
+			if executed[l] > 0 {
+				cm.unc[ev.Strict(l)] = true
+				if cm.taint[l] {
+					cm.taintUnc[l] = true
+				}
+			}
+		}
+		return
 	}
 	if opts.FailFast && anyFail {
 		// anything may have been cancelled: targets the model expected to run may not have
